@@ -2,6 +2,7 @@ package main
 
 import (
 	"bytes"
+	"sort"
 	"encoding/json"
 	"fmt"
 	"go/types"
@@ -665,12 +666,67 @@ func makeReplay(o *runOpts, P *Prog, r *FuncResult, ob *Obligation) *ReplayFile 
 			frees = append(frees, x.extract(v.T, fv.Type(), 0))
 		}
 	}
+	// package-level variables the function reads (configuration such as model.Param): set as in the model
+	vc.globalInits = nil
+	var gcomps []string
+	for comp := range vc.compSort {
+		if strings.HasPrefix(comp, "G:") || strings.HasPrefix(comp, "GC:") {
+			gcomps = append(gcomps, comp)
+		}
+	}
+	sort.Strings(gcomps)
+	for _, comp := range gcomps {
+		full := strings.TrimPrefix(strings.TrimPrefix(comp, "GC:"), "G:")
+		i := strings.LastIndex(full, ".")
+		if i < 0 {
+			continue
+		}
+		sp := P.Pkgs[full[:i]]
+		if sp == nil {
+			continue
+		}
+		g, ok := sp.Members[full[i+1:]].(*ssa.Global)
+		if !ok {
+			continue
+		}
+		gt := derefType(g.Type())
+		switch gt.Underlying().(type) {
+		case *types.Struct, *types.Basic:
+		default:
+			continue
+		}
+		if isBigInt(gt) || isBigRat(gt) || hasLock(gt) {
+			continue
+		}
+		exported := g.Name()[0] >= 'A' && g.Name()[0] <= 'Z'
+		if sp != vc.pkg && !exported {
+			continue
+		}
+		if !strings.Contains(script, smtIdent(comp+"!e")) && !strings.Contains(script, comp+"!e") {
+			continue
+		}
+		var term Term
+		if strings.HasPrefix(comp, "GC:") {
+			term = vc.epochGet(vc.constEpoch, comp)
+		} else {
+			term = vc.heapGet(heap, comp)
+		}
+		cv := x.extract(term, gt, 1)
+		if x.err != nil {
+			break
+		}
+		vc.globalInits = append(vc.globalInits, globalInit{pkg: sp.Pkg, name: g.Name(), typ: gt, cv: cv})
+	}
 	if x.err != nil {
 		rp.Verdict = "replay-unavailable"
 		rp.TestOutput = "input extraction: " + x.err.Error() + "\n" + x.raw
 		return rp
 	}
-	rp.Inputs = map[string]interface{}{"params": inputs, "free_vars": frees, "fork_flags": vc.flagValues}
+	gl := map[string]*CV{}
+	for _, gi := range vc.globalInits {
+		gl[gi.pkg.Name()+"."+gi.name] = gi.cv
+	}
+	rp.Inputs = map[string]interface{}{"params": inputs, "free_vars": frees, "fork_flags": vc.flagValues, "globals": gl}
 	src, err := vc.genTestS2(fn, inputs, frees)
 	if err != nil {
 		rp.Verdict = "replay-unavailable"
@@ -712,7 +768,7 @@ func makeReplay(o *runOpts, P *Prog, r *FuncResult, ob *Obligation) *ReplayFile 
 			rp.Verdict = "not-reproduced"
 			return rp
 		}
-		res, eo := P.evalPostConcrete2(fn, r.Contract, ob.Src, inputs, dump.Post, dump.Results, frees, vc.flagValues, o.timeout)
+		res, eo := P.evalPostConcrete2(fn, r.Contract, ob.Src, inputs, dump.Post, dump.Results, frees, vc.flagValues, vc.globalInits, o.timeout)
 		rp.TestOutput += "\npostcondition evaluated on the observed pre/post state: negation is " + res + "\n" + eo
 		if res == "sat" {
 			rp.Verdict = "reproduced"
@@ -743,7 +799,7 @@ func makeReplay(o *runOpts, P *Prog, r *FuncResult, ob *Obligation) *ReplayFile 
 				return rp
 			}
 			for _, e := range r.Contract.Ensures {
-				res, _ := P.evalPostConcrete2(fn, r.Contract, e.Src, inputs, dump.Post, dump.Results, frees, vc.flagValues, o.timeout)
+				res, _ := P.evalPostConcrete2(fn, r.Contract, e.Src, inputs, dump.Post, dump.Results, frees, vc.flagValues, vc.globalInits, o.timeout)
 				if res == "sat" {
 					rp.TestOutput += "\nobserved run violates postcondition: " + e.Src
 					rp.Verdict = "reproduced"
